@@ -1665,6 +1665,33 @@ def content_edge_cases():
             yield "content-edge:%d%s" % (k, "+pre" if pre else ""), W.simple_file(objs, 1)[0]
 
 
+def annot_page_cases():
+    """a page with /Annots [A] (object 4) whose /P points at every object of the fragment: its own page (the one legal value
+    besides absence, Table 164), another page, the /Pages root, an inner /Pages node, the catalog, the annotation itself, an
+    integer, an array, a stream, null, a chain of references, a loop of references, an undefined object; /P absent; /P direct.
+    Objects: 1 catalog, 2 pages root (kids 3, 6), 3 page, 4 annotation, 5 integer, 6 inner pages node, 7 its page, 8 array,
+    9 stream, 10 null, 11 -> 12 -> 3 (references), 13 <-> 14 (loop).  (tag, bytes)"""
+    def doc(p, annots=None):
+        a = {"Type": N("Annot"), "Subtype": N("Text"), "Rect": [0, 0, 10, 10], "Contents": b"n"}
+        if p is not None:
+            a["P"] = p
+        extra = {4: a, 5: 42, 6: {"Type": N("Pages"), "Parent": Ref(2), "Kids": [Ref(7)], "Count": 1},
+                 7: {"Type": N("Page"), "Parent": Ref(6), "MediaBox": [0, 0, 100, 100], "Resources": {}, "Annots": [Ref(4)]},
+                 8: [Ref(3)], 9: Stream({"Type": N("Page")}, b"q Q"), 10: None, 11: Ref(12), 12: Ref(3), 13: Ref(14), 14: Ref(13)}
+        return _r(_mini(extra, page_extra={"Annots": annots if annots is not None else [Ref(4)]}, pages_extra={"Kids": [Ref(3), Ref(6)], "Count": 2}))
+    targets = [("own-page", Ref(3)), ("other-page", Ref(7)), ("pages-root", Ref(2)), ("pages-inner", Ref(6)), ("catalog", Ref(1)),
+               ("annot-itself", Ref(4)), ("integer", Ref(5)), ("array", Ref(8)), ("stream", Ref(9)), ("null-object", Ref(10)),
+               ("ref-chain-to-page", Ref(11)), ("ref-loop", Ref(13)), ("undefined", Ref(99)), ("absent", None),
+               ("direct-integer", 7), ("direct-dict", {"Type": N("Pages"), "Kids": [], "Count": 0}), ("direct-null", None)]
+    for name, p in targets:
+        if name == "direct-null":
+            continue
+        yield "annot-p:" + name, doc(p)
+    # the annotation dictionary written directly inside /Annots, /P at its own page and at the tree
+    for name, p in (("inline-own-page", Ref(3)), ("inline-pages-root", Ref(2))):
+        yield "annot-p:" + name, doc(None, annots=[{"Type": N("Annot"), "Subtype": N("Text"), "Rect": [0, 0, 10, 10], "P": p}])
+
+
 def planted(rng, tier="quick"):
     """iterator of (tag, file bytes): syntactically valid files with a correct cross-reference section whose object graph is hostile"""
     styles = ("table",) if tier == "quick" else ("table", "xstream", "objstm", "incr")
